@@ -94,6 +94,28 @@ def timed_ack_session(rng):
     return "net 2 0 " + " ; ".join(ops)
 
 
+CYCLE_MS_N9 = 6 * (0.3 + 3.0)  # node 0o11: ARC 5 -> 6 attempts of T_TX 0.3 ms + ARD 3.0 ms (250*(((9%6)+1)*2+3)+250 us)
+
+
+def timed_ack_slow_hop_session(rng):
+    """as `timed_ack_session`, but the FIRST HOP is slow: its first k transmit cycles (6 attempts each) are lost, so the
+    frame is accepted about k * 19.8 ms after the call began, and the NETWORK_ACK is scripted relative to THAT moment:
+    clearly inside route_timeout counted from the acceptance (although possibly outside when counted from the start of
+    the call: the property counts 'after the frame was accepted by the first hop'; seeded change C13-s22 counted from
+    the start), or clearly outside."""
+    k = rng.choice([1, 2, 2])
+    rt = rng.choice([30, 50, 75])
+    a_ms = k * CYCLE_MS_N9
+    inside = rng.random() < 0.6
+    delay_ms = a_ms + 3 + (rng.choice([0.3, 0.6]) * rt if inside else 1.5 * rt + 15)
+    ack = struct.pack("<HHHBB", 2, 0o11, rng.randrange(65536), 193, 0)
+    ops = ["new n0 network 0 9", "new n1 network 1 1", f"n0 set route_timeout {rt}", "n0 set tx_timeout 30",
+           "env faults " + "L" * (6 * k),
+           f"env arrive n0 {int(delay_ms * 1000000)} {rng.choice([0, 1])} {ack.hex()}",
+           f"n0 write 2 {rng.randint(65, 127)} {rbytes(rng, rng.choice([0, 1, 24]))} 56", "n0 read", "n0 update", "n0 read"]
+    return "net 2 0 " + " ; ".join(ops)
+
+
 def multicast_session(rng):
     line = session(rng, False)
     ops = line.split(" ; ")
@@ -126,6 +148,7 @@ class C13(PropCheck):
         cs += [(session(rng, True), "routes-with-failures") for _ in range(n)]
         cs += [(multicast_session(rng), "multicasts") for _ in range(n // 5)]
         cs += [(timed_ack_session(rng), "timed-ack") for _ in range(n // 3)]
+        cs += [(timed_ack_slow_hop_session(rng), "timed-ack-slow-first-hop") for _ in range(n // 5)]
         return cs
 
     def nontrivial(self, line, io):
@@ -239,11 +262,19 @@ class C13(PropCheck):
 def _judge_timed(self, l, io):
     """believed only if received *in time*: the scripted NETWORK_ACK arrives clearly inside / outside route_timeout"""
     names, parts = l.split(" ; "), io.split(" ; ")
-    rt = delay = None
+    rt = delay = accepted = None
     for name, part in zip(names, parts):
         t = name.split()
         if t[-3:-1] == ["set", "route_timeout"]:
             rt = int(t[-1])
+        elif t[:2] == ["env", "faults"] and set(t[2]) == {"L"}:
+            # slow first hop: the frame is accepted no earlier than after these lost attempts (lower bound), and the
+            # block leaves 3 ms for the SPI traffic of the retries
+            accepted = len(t[2]) // 6 * CYCLE_MS_N9
+        elif t[:2] == ["env", "arrive"] and accepted is not None:
+            delay = int(t[3]) / 1e6 - accepted
+            if delay <= 3:
+                return None
         elif t[:2] == ["env", "arrive"]:
             delay = int(t[3]) / 1e6
         elif len(t) > 1 and t[1] == "write":
@@ -252,7 +283,7 @@ def _judge_timed(self, l, io):
                 return None
             if delay <= 0.8 * rt and r0 != "T":
                 return Finding(l, f"write() returned {r0} although the NETWORK_ACK for the sender arrived {delay:.1f} ms after "
-                                  f"the call began, inside route_timeout = {rt} ms", {"class": "timed-ack"})
+                                  f"the frame was accepted by the first hop (at the earliest), inside route_timeout = {rt} ms", {"class": "timed-ack"})
             if delay >= 1.5 * rt + 10 and r0 != "F":
                 return Finding(l, f"write() returned {r0} although the only NETWORK_ACK arrived {delay:.1f} ms after the call "
                                   f"began, outside route_timeout = {rt} ms", {"class": "timed-ack"})
